@@ -1181,6 +1181,73 @@ fn run_cancel_case(h: &H, out: &mut Out, idx: &str, kind: usize, mode: &str) {
     s.send(Cmd::Close);
 }
 
+/// A caller is stalled inside `write_request` (the peer stopped reading, a 12 MiB request fills the
+/// socket buffers) and so holds the writer lock; the peer then delivers a malformed frame / closes
+/// its sending direction.  The other in-flight call must still be failed.
+fn run_stall_case(h: &H, out: &mut Out, idx: &str, kind: usize, fault: &str) {
+    let kname = KINDS[kind];
+    let op = format!("stall {} {} {}", idx, kind, fault);
+    out.begin(&op);
+    let ops = [op.clone()];
+    let Ok(mut s) = h.open(kind) else { return };
+    // A: small, written, never answered
+    s.call(h, 0, req_body(0), None);
+    s.send(Cmd::WaitUnread(req_wire_len(kind)));
+    if let Err(e) = s.srv_done() {
+        out.oracle_fail(&format!("deadconn.{}.setup", kname), &e, &ops);
+        return;
+    }
+    // B: stalls in write
+    let pad = "x".repeat(12 << 20);
+    s.call(h, 7, json!({"c": 107, "pad": pad}), None);
+    s.send(Cmd::WaitUnread(req_wire_len(kind) + (1 << 16)));
+    if let Err(e) = s.srv_done() {
+        out.oracle_fail(&format!("deadconn.{}.setup", kname), &e, &ops);
+        return;
+    }
+    std::thread::sleep(Duration::from_millis(100));
+    // the fault, while the peer keeps the connection open and does not read
+    let bytes = malformed(fault, 1);
+    if kind == 2 {
+        s.send(Cmd::Send(vec![bytes]));
+    } else {
+        s.send(Cmd::SendRaw(bytes));
+    }
+    let _ = s.srv_done();
+    let wd = Duration::from_secs(6);
+    let mut a = "HANG".to_string();
+    let mut b = "HANG".to_string();
+    let t0 = Instant::now();
+    while t0.elapsed() < wd && (a == "HANG") {
+        match s.res(wd.saturating_sub(t0.elapsed())) {
+            Some((0, r)) => a = match r { Ok(_) => "own".into(), Err(e) => cls(&e) },
+            Some((7, r)) => b = match r { Ok(_) => "own".into(), Err(e) => cls(&e) },
+            Some(_) => {}
+            None => break,
+        }
+    }
+    if a == "HANG" {
+        out.oracle_fail(&format!("deadconn.{}.stalled_writer_blocks_failure", kname), &format!("the peer sent a malformed frame ({}) while another caller was stalled in write (peer not reading): the in-flight call was not failed within {:?}", fault, wd), &ops);
+    }
+    // release: the peer goes away; now everything must return
+    s.send(Cmd::Reset);
+    let _ = s.srv();
+    let t1 = Instant::now();
+    while t1.elapsed() < WATCHDOG && (a == "HANG" || b == "HANG") {
+        match s.res(WATCHDOG.saturating_sub(t1.elapsed())) {
+            Some((0, r)) => a = match r { Ok(_) => "own".into(), Err(e) => format!("late-{}", cls(&e)) },
+            Some((7, r)) => b = match r { Ok(_) => "own".into(), Err(e) => cls(&e) },
+            Some(_) => {}
+            None => break,
+        }
+    }
+    if a == "HANG" || b == "HANG" {
+        out.oracle_fail(&format!("deadconn.{}.inflight_hang", kname), &format!("calls still blocked after the peer reset the connection: small={} big={}", a, b), &ops);
+    }
+    out.count(&format!("deadconn.{}.stall.{}", kname, a));
+    out.case(&op, &format!("{} small {} big {}", idx, if a.starts_with("late-") { "Err" } else { a.as_str() }, b), true);
+}
+
 fn gen_dead(args: &Args, r: &mut Rng) -> Vec<DeadCase> {
     let mut v = Vec::new();
     let resp_len = response(1, false, 0, 0).len();
@@ -1245,6 +1312,7 @@ fn main() {
                     run_tmo_case(&h, &mut out, &idx, w[2].parse().unwrap(), w[3], jitter);
                 }
                 Some("cancel") if w.len() >= 4 => run_cancel_case(&h, &mut out, &idx, w[2].parse().unwrap(), w[3]),
+                Some("stall") if w.len() >= 4 => run_stall_case(&h, &mut out, &idx, w[2].parse().unwrap(), w[3]),
                 _ => {}
             }
         }
@@ -1258,7 +1326,7 @@ fn main() {
             run_batch_case(&h, &mut out, &format!("b{i}"), b);
         }
     } else {
-        out.rule = "per client: each fault kind (FIN, RST via SO_LINGER 0, close with unread requests, each malformed header / WebSocket message kind, response cut at a header/body byte-offset class, WebSocket close) with 0..16 calls in flight, before or after the requests were read, optionally after answering some calls, with and without per-call timeouts; then one more call and the notify subscriber; timeouts racing the response (late / early / timed race); cancellation before write (writer stalled by a 12 MiB request) and during wait. Non-trivial = at least one call in flight / every timeout and cancel scenario".into();
+        out.rule = "per client: each fault kind (FIN, RST via SO_LINGER 0, close with unread requests, each malformed header / WebSocket message kind, response cut at a header/body byte-offset class, WebSocket close) with 0..16 calls in flight, before or after the requests were read, optionally after answering some calls, with and without per-call timeouts; then one more call and the notify subscriber; timeouts racing the response (late / early / timed race); cancellation before write (writer stalled by a 12 MiB request) and during wait; a malformed frame delivered while another caller is stalled in write (peer not reading). Non-trivial = at least one call in flight / every timeout and cancel scenario".into();
         let cases = gen_dead(&args, &mut rng);
         for (i, c) in cases.iter().enumerate() {
             run_dead_case(&h, &mut out, &format!("d{i}"), c);
@@ -1284,6 +1352,15 @@ fn main() {
             }
             run_cancel_case(&h, &mut out, &format!("c{c}"), kind, "prewrite");
             c += 1;
+        }
+        // a writer stalled by a peer that stopped reading must not keep the failure from the other calls
+        let mut k = 0;
+        for kind in 0..3 {
+            let faults: &[&str] = if args.thorough() { &["badspec", "badlen", "shortlen"] } else { &["badspec"] };
+            for f in faults {
+                run_stall_case(&h, &mut out, &format!("s{k}"), kind, f);
+                k += 1;
+            }
         }
     }
     out.finish();
